@@ -17,7 +17,7 @@ EXPLANATION = (
     "saved backward options; (AC6) both wrappers pass len(params), y0 and the object parameters of the same pure function; "
     "(AC7) no in-place update of values aliasing the output of the recursive _SolveIVP.apply (needed for a "
     "graph-recording backward); (T) the ts gradient is None unless ts.requires_grad was recorded in forward, and both "
-    "evaluation modes of the user function return the same 4-tuple layout. NOT decided: correctness of the adjoint dynamics.")
+    "evaluation modes of the user function return the same 4-tuple layout. (AC16) the values of the incoming cotangents never steer control flow or index ranges of the backward sweep; NOT decided: correctness of the adjoint dynamics.")
 ASSUMPTIONS = ["torch.autograd semantics for custom Functions and views"]
 
 IVP = "xitorch/integrate/solve_ivp.py"
